@@ -1,5 +1,5 @@
 """Per-property checks."""
-import collections, os, re, json
+import collections, subprocess, os, re, json
 import common, seqsuite
 
 READ_OPS = {'pop', 'popmove', 'peek', 'peekslice', 'peekavail', 'copyitem', 'cloneitem', 'copyslice', 'cloneslice'}
@@ -526,6 +526,67 @@ def run_script_suite(self, ctx, stats, machines=('2n', '3n', 'x')):
                                  'generator': 'concmodel gen (extracted RAn.step_a), concmodel2 gen3 / genx (extracted RA3n.step3_a, RAx.step_a); stale reads via pick'}
     stats.histories += total; stats.steps += events
 
+def run_drop_suite(self, ctx, stats):
+    """S-drop: EVERY schedule of the proved drop machine (Conc/Drop.v, extracted) replayed on the real crate with one OS thread per
+    iterator (harness/src/bin/droprun.rs): 2 and 3 iterators x plain / detached / async / async-detached wrappers; quick: machine-step
+    granularity (6 + 90 schedules) plus a random sample at hook-point granularity (fences scheduled separately); thorough: all 52290."""
+    self.script_bad = []
+    bindir, log = ctx.build_harness(('droprun',))
+    if bindir is None:
+        self.script_bad.append(('droprun does not build against the current /repo tree', log[-3000:], None)); return
+    O = common.OCAML
+    with common.Lock('coq'):
+        rc, out = ctx._make(['Conc/Drop.vo'])
+        if rc != 0:
+            self.script_bad.append(('Conc/Drop.v no longer compiles', out[-3000:], None)); return
+        def stale(target, srcs):
+            return not os.path.exists(target) or os.path.getmtime(target) < max(os.path.getmtime(x) for x in srcs)
+        if stale(os.path.join(O, 'dmodel.ml'), [os.path.join(common.COQ, 'Conc/Drop.vo'), os.path.join(common.COQ, 'Extract/ExtractDrop.v')]):
+            rc, out = common.sh(['coqc', '-Q', common.COQ, 'MRB', os.path.join(common.COQ, 'Extract/ExtractDrop.v')], cwd=O)
+            if rc != 0:
+                self.script_bad.append(('extraction of the drop machine fails', out[-3000:], None)); return
+        if stale(os.path.join(O, 'dropmodel'), [os.path.join(O, x) for x in ('dmodel.ml', 'dmodel.mli', 'dropdriver.ml')]):
+            rc, out = common.sh('ocamlfind ocamlopt -O2 -w -a dmodel.mli dmodel.ml dropdriver.ml -o dropmodel', cwd=O)
+            if rc != 0:
+                self.script_bad.append(('dropmodel does not build', out[-3000:], None)); return
+    jobs = [('all2', ['all', '2']), ('all3', ['all', '3']), ('fine2', ['all', '2', 'fine'])]
+    if ctx.tier == 'quick': jobs.append(('fine3-sample', ['rand', str(ctx.seed), '1500', '3', 'fine']))
+    else: jobs.append(('fine3', ['all', '3', 'fine']))
+    total = ok = events = 0
+    per = {}
+    for name, gargs in jobs:
+        path = os.path.join(ctx.work, f'drop-{name}.cases')
+        with open(path, 'w') as f:
+            subprocess.run([os.path.join(O, 'dropmodel')] + gargs, stdout=f, stderr=subprocess.DEVNULL)
+        rc, res = common.sh([os.path.join(bindir, 'droprun'), path], timeout=3000)
+        n0 = total
+        bad_ids = []
+        for line in res.splitlines():
+            m = re.match(r'case (\d+) (ok|MISMATCH)(.*)', line)
+            if not m: continue
+            total += 1
+            if m.group(2) == 'ok':
+                ok += 1; e = re.search(r'events=(\d+)', line); events += int(e.group(1)) if e else 0
+            elif len(bad_ids) < 20: bad_ids.append((int(m.group(1)), m.group(3).strip()))
+        per[name] = total - n0
+        if bad_ids:
+            want = {c for c, _ in bad_ids}; texts = {}; cur = None
+            for l in open(path):
+                if l.startswith('case '): cur = int(l.split()[1]) if int(l.split()[1]) in want else None
+                if cur is not None: texts[cur] = texts.get(cur, '') + l
+            for cid, what in bad_ids:
+                if 'timeout' in what:
+                    one = os.path.join(ctx.work, f'drop-{name}-retry{cid}.cases'); open(one, 'w').write(texts.get(cid, ''))
+                    again = [common.sh([os.path.join(bindir, 'droprun'), one], timeout=600)[1] for _ in range(2)]
+                    if not all('MISMATCH' in a for a in again): ok += 1; continue
+                self.script_bad.append((f'[{name}] ' + what, texts.get(cid, ''), path))
+        if rc not in (0, 1) and not self.script_bad:
+            self.script_bad.append((f'droprun exited with code {rc}', res[-2000:], path))
+    ctx.notes['drop_suite'] = {'schedules_replayed': total, 'ok': ok, 'hook_events': events, 'per_set': per,
+                               'generator': 'dropmodel (extracted Drop.dstep): all schedules at machine-step granularity; hook-point granularity: 2 iterators all, 3 iterators '
+                                            + ('random sample' if ctx.tier == 'quick' else 'all 52290 x 4 variants')}
+    stats.histories += total; stats.steps += events
+
 class ConcCheck(SeqCheck):
     def __init__(self, prop, pred, text):
         super().__init__(prop, pred, text)
@@ -533,7 +594,7 @@ class ConcCheck(SeqCheck):
         self.extra = self.script_suite
         self.script_bad = []
     def script_suite(self, ctx, seqrun, stats, divs):
-        if ctx.prop == 'C07': return
+        if ctx.prop == 'C07': return run_drop_suite(self, ctx, stats)
         run_script_suite(self, ctx, stats)
     def suites(self, ctx):
         s = ctx.seed
@@ -574,6 +635,12 @@ class ConcCheck(SeqCheck):
                                   f'## model-level failing execution (evaluated by coqc on this run): {term} = true\n## {story}\n## observed profile (gen/Profile.v): {prof}\n'
                                   + ('## first diverging event trace:\n' + divs[0].replay_text() if divs else ''))
                     return
+        if self.script_bad and ctx.prop == 'C07':
+            what, text, path = min(self.script_bad, key=lambda b: len(b[1]))
+            concrete = any(k in what for k in ('DOUBLE FREE', 'USE AFTER FREE', 'LEAK', 'frees=', 'dropped', 'alive'))
+            ctx.violation(f'a schedule of the proved drop machine does not replay on the real crate: {what} ({len(self.script_bad)} schedules)',
+                          '## S-drop case (replay: .build/cargo/debug/droprun <file with this case>)\n' + text, no_input=not concrete)
+            return
         mine = [d for d in divs if self.pred(d)]
         script = None
         if self.script_bad and ctx.prop in ('C02', 'C03', 'C10'):
